@@ -111,7 +111,7 @@ dispatch_time(dispatch_time_t inval, int64_t delta)
 				return DISPATCH_TIME_FOREVER; // overflow
 			}
 		} else {
-			if ((int64_t)(value += offset) < 1) {
+			if ((int64_t)(value += offset) <= 1) {
 				// -1 is special == DISPATCH_TIME_FOREVER == forever, so
 				// return -2 (after conversion to dispatch_time_t) instead.
 				value = 2; // underflow.
@@ -149,17 +149,47 @@ dispatch_time_t
 dispatch_walltime(const struct timespec *inval, int64_t delta)
 {
 	int64_t nsec;
+	bool negative;
 	if (inval) {
-		nsec = (int64_t)_dispatch_timespec_to_nano(*inval);
+		// Add the whole seconds of delta before converting to nanoseconds, so
+		// that an overflow can only mean that the sum is out of range.
+		int64_t sec = (int64_t)inval->tv_sec;
+		int64_t rem = delta % (int64_t)NSEC_PER_SEC;
+		negative = delta < 0;
+		if (os_add_overflow(sec, delta / (int64_t)NSEC_PER_SEC, &sec)) {
+			goto out_of_range;
+		}
+		negative = inval->tv_nsec < 0;
+		if (os_add_overflow(rem, (int64_t)inval->tv_nsec, &rem)) {
+			goto out_of_range;
+		}
+		negative = rem < 0;
+		if (os_add_overflow(sec, rem / (int64_t)NSEC_PER_SEC, &sec)) {
+			goto out_of_range;
+		}
+		rem %= (int64_t)NSEC_PER_SEC;
+		negative = sec < 0;
+		if (os_mul_overflow(sec, (int64_t)NSEC_PER_SEC, &nsec) ||
+				os_add_overflow(nsec, rem, &nsec)) {
+			goto out_of_range;
+		}
 	} else {
 		nsec = (int64_t)_dispatch_get_nanoseconds();
+		negative = delta < 0;
+		if (os_add_overflow(nsec, delta, &nsec)) {
+			goto out_of_range;
+		}
 	}
-	nsec += delta;
-	if (nsec <= 1) {
-		// -1 is special == DISPATCH_TIME_FOREVER == forever
-		return delta >= 0 ? DISPATCH_TIME_FOREVER : (dispatch_time_t)-2ll;
+	if (nsec <= 2) {
+		// -1 is special == DISPATCH_TIME_FOREVER == forever and -2 is
+		// DISPATCH_WALLTIME_NOW: anything that early has elapsed already
+		return (dispatch_time_t)-2ll;
 	}
-	return (dispatch_time_t)-nsec;
+	return _dispatch_clock_and_value_to_time(DISPATCH_CLOCK_WALL,
+			(uint64_t)nsec);
+
+out_of_range:
+	return negative ? (dispatch_time_t)-2ll : DISPATCH_TIME_FOREVER;
 }
 
 uint64_t
